@@ -275,7 +275,9 @@ def run_placements(c, res):
     specials = [(0.0, 1.0), (1.0, 1.0), (3.0, 1.0), (1.5, 4.0), (3.0, 4.0), (-0.001, 1.0), (3.001, 1.0), (1.5, -0.5), (1.5, 4.5),
                 (2.0, 2.0), (0.0, 0.0), (float('inf'), 1.0), (-5.0, 9.0),
                 # a hair outside / inside the outermost edges (outside is outside, however close)
-                (3.0000001, 1.0), (float(np.nextafter(3.0, 4.0)), 3.0), (1.5, 4.00000001), (-1e-12, 1.0), (2.9999999, float(np.nextafter(4.0, 0.0)))]
+                (3.0000001, 1.0), (float(np.nextafter(3.0, 4.0)), 3.0), (1.5, 4.00000001), (-1e-12, 1.0), (2.9999999, float(np.nextafter(4.0, 0.0))),
+                # events without a position (e.g. the logarithm of a negative value) lie in no bin
+                (float('nan'), 1.0), (1.5, float('nan')), (float('nan'), float('nan')), (float('-inf'), 3.0)]
     for counts in bases:
         ev0 = events_from_counts(counts, xe, ye)
         n = len(ev0)
